@@ -19,6 +19,7 @@ type Renaming struct {
 type renamer struct {
 	r       *rand.Rand
 	adv     bool
+	greedy  bool
 	pool    []string
 	fresh   int
 	funcs   map[string]string
@@ -28,7 +29,14 @@ type renamer struct {
 }
 
 func (rn *renamer) pick(avoid map[string]bool, old string) string {
-	if rn.adv {
+	if rn.adv && rn.greedy {
+		// always the first free pool name: most channels end up with the same identifier
+		for _, n := range rn.pool {
+			if !avoid[n] {
+				return n
+			}
+		}
+	} else if rn.adv {
 		for _, i := range rn.r.Perm(len(rn.pool)) {
 			if !avoid[rn.pool[i]] {
 				return rn.pool[i]
@@ -232,7 +240,7 @@ func IsSelfOrAlias(n string, env map[string]string, alias string) bool {
 // Rename returns an alpha-equivalent copy of p. adversarial draws bound names from a pool
 // of three identifiers (maximising coincidences across scopes, never capturing).
 func Rename(p *Program, r *rand.Rand, adversarial bool) (*Program, *Renaming) {
-	rn := &renamer{r: r, adv: adversarial, pool: []string{"x", "y", "z"}, funcs: map[string]string{}, types: map[string]string{}, labels: map[string]string{}, tops: map[string]string{}}
+	rn := &renamer{r: r, adv: adversarial, greedy: adversarial && r.Intn(2) == 0, pool: []string{"x", "y", "z"}, funcs: map[string]string{}, types: map[string]string{}, labels: map[string]string{}, tops: map[string]string{}}
 	for i, f := range p.Funcs {
 		rn.funcs[f.Name] = fmt.Sprintf("fn%d%s", i, map[bool]string{true: "x", false: "_r"}[adversarial])
 	}
